@@ -92,6 +92,14 @@ func c03Cases(tier string, seed int64) []fw.Case {
 				idx++
 			}
 		}
+		// several databases governed by manifest-less `simple` controllers (the write list is given by
+		// whoever opens the database) on ONE instance, with different lists
+		for _, order := range []string{"allowed-first", "refused-first", "wildcard-first"} {
+			for _, typ := range storeTypes {
+				out = append(out, fw.Case{Idx: idx, Seed: rng.Int63(), Kind: "simple-instance", P: map[string]interface{}{"order": order, "type": typ, "rep": rep}})
+				idx++
+			}
+		}
 	}
 	return out
 }
@@ -152,6 +160,89 @@ func c03Published(c fw.Case) fw.Verdict {
 	return v
 }
 
+// c03SimpleInstance: one instance opens three databases whose `simple` controllers carry different write
+// lists ([P], [Q], [*]), in a given order; P must be refused on the [Q] database whatever it opened before,
+// and Q's genuine entry must still get in there.
+func c03SimpleInstance(c fw.Case) fw.Verdict {
+	e := NewEnv()
+	defer e.Close()
+	v := fw.Verdict{}
+	order, typ := c.Str("order", "allowed-first"), c.Str("type", tEvent)
+	v.Sig = fw.HashSig("simple-instance", order, typ)
+	P, err := e.W.AddPeer(sim.PeerOpts{})
+	if err != nil {
+		return fw.Verdict{Status: fw.Inconclusive, What: err.Error()}
+	}
+	Q, err := e.W.AddPeer(sim.PeerOpts{})
+	if err != nil {
+		return fw.Verdict{Status: fw.Inconclusive, What: err.Error()}
+	}
+	idP, idQ := P.DB.Identity().ID, Q.DB.Identity().ID
+	simple := func(list ...string) accesscontroller.ManifestParams {
+		return accesscontroller.NewSimpleManifestParams("simple", map[string][]string{"write": list})
+	}
+	ctx, cancel := context.WithTimeout(bg, 60*time.Second)
+	defer cancel()
+	// Q creates the database only Q may write to
+	f := false
+	sQ, err := Q.DB.Create(ctx, "simple-q", typ, &iface.CreateDBOptions{AccessController: simple(idQ), Replicate: &f})
+	if err != nil {
+		return fw.Verdict{Status: fw.Inconclusive, What: "create by Q: " + err.Error()}
+	}
+	Q.Track(sQ)
+	opQ, err := ApplyOp(bg, sQ, honestOp(typ, 1))
+	if err != nil {
+		return fw.Verdict{Status: fw.Inconclusive, What: "Q's own write: " + err.Error()}
+	}
+	var sOwn, sRef, sWild iface.Store
+	open := map[string]func() error{
+		"own": func() (err error) {
+			sOwn, err = P.DB.Create(ctx, "simple-p", typ, &iface.CreateDBOptions{AccessController: simple(idP), Replicate: &f})
+			return
+		},
+		"refused": func() (err error) {
+			sRef, err = P.DB.Open(ctx, sQ.Address().String(), &iface.CreateDBOptions{AccessController: simple(idQ), Replicate: &f})
+			return
+		},
+		"wild": func() (err error) {
+			sWild, err = P.DB.Create(ctx, "simple-w", typ, &iface.CreateDBOptions{AccessController: simple("*"), Replicate: &f})
+			return
+		},
+	}
+	seq := map[string][]string{"allowed-first": {"own", "refused", "wild"}, "refused-first": {"refused", "own", "wild"}, "wildcard-first": {"wild", "refused", "own"}}[order]
+	for _, k := range seq {
+		if err := open[k](); err != nil {
+			return fw.Verdict{Status: fw.Inconclusive, What: "open " + k + ": " + err.Error()}
+		}
+	}
+	for _, s := range []iface.Store{sOwn, sRef, sWild} {
+		P.Track(s)
+	}
+	v.NonTrivial = true
+	v.Count("simple_instance_checks", 1)
+	got, _ := sRef.AccessController().GetAuthorizedByRole("write")
+	_, werr := ApplyOp(bg, sRef, honestOp(typ, 2))
+	e.W.Settle()
+	if werr == nil || sRef.OpLog().Len() != 0 {
+		return fw.Verdict{Status: fw.Violated, Key: "local-write-by-non-writer-accepted/simple-controller-second-database", NonTrivial: true, Sig: v.Sig,
+			What: fmt.Sprintf("instance opened %v; the database opened with the simple controller's write list [%s] reports the list %v and accepted a write by %s, who is not in it (log length %d)", seq, short(idQ), got, short(idP), sRef.OpLog().Len())}
+	}
+	// the genuine writer's entry still gets in by manual sync, and P's own databases accept P
+	_ = sRef.Sync(ctx, cloneHeads(headsOf(sQ)))
+	e.W.Flush()
+	if !logHas(sRef, opQ.GetEntry().GetHash()) {
+		return fw.Verdict{Status: fw.Inconclusive, What: "marker: the authorised writer's entry did not reach the replica"}
+	}
+	for name, s := range map[string]iface.Store{"own list": sOwn, "wildcard": sWild} {
+		if _, err := ApplyOp(bg, s, honestOp(typ, 3)); err != nil {
+			return fw.Verdict{Status: fw.Inconclusive, What: "control write on the " + name + " database refused: " + err.Error()}
+		}
+	}
+	v.Status = fw.Held
+	v.Sample = map[string]interface{}{"route": "simple-instance", "order": seq, "type": typ, "reported_list": got}
+	return v
+}
+
 // buildStore constructs a store with the public constructor and the given
 // access controller (reduced matrix for simple / orbitdb controllers).
 func buildStore(p *sim.Peer, typ string, addr address.Address, ac accesscontroller.Interface, ident *idp.Identity) (iface.Store, error) {
@@ -190,6 +281,9 @@ type c03World struct {
 }
 
 func c03Run(c fw.Case) fw.Verdict {
+	if c.Kind == "simple-instance" {
+		return c03SimpleInstance(c)
+	}
 	if c.Kind == "published" {
 		return c03Published(c)
 	}
